@@ -455,3 +455,18 @@ Definition same_partition_b (a : list nat) (b : list Z) : bool :=
 (** Contract of the np.argsort oracle, as a proposition. *)
 Definition argsort_ok (keys : list Z) (perm : list nat) : Prop :=
   Permutation perm (seq 0 (length keys)) /\ Sorted Z.le (map (nthz keys) perm).
+
+(** Contract of the np.random.choice oracle: the draw is an element of the (non-empty) array. *)
+Definition pick_ok (pick : nat -> list nat -> nat) : Prop :=
+  forall step cands, cands <> [] -> In (pick step cands) cands.
+
+(** Nodes that may be centers, as documented for center_position. *)
+Definition admissible (bipartite : bool) (pos : position) (n_row n_col v : nat) : Prop :=
+  if bipartite then
+    match pos with
+    | PRow => v < n_row
+    | PCol => n_row <= v < n_row + n_col
+    | PBoth => v < n_row + n_col
+    | POther => False
+    end
+  else v < n_row.
